@@ -20,17 +20,19 @@ RULE = (
     "values at the width limits; floats that need 17 significant digits; strings with blanks, '#', braces, "
     'brackets, words that look like other literals and, as a separate class, quotes / $ / backslash; a none value '
     'for the back-ends that can express it) exported through every back-end with generated options (units on/off, '
-    '#define / const selections, renaming on/off, select by query, by tags or by both together, optionally after another selection on '
-    'the same exporter object); in two thirds of the cases ONE parsed environment serves all back-ends of the '
-    "case, in a rotated order, and the first back-end is exported once more at the end. Oracle = the format's own "
-    "reader: DIP re-parse; json / yaml / toml loaders; bash 'source' + 'declare -p'; generated printer programs "
-    'compiled with gcc (C11 _Generic, sizeof), g++ (std::is_same on decltype), gfortran (kind(), shape()) and '
-    'rustc (type_name_of_val); names by the documented mapping; values exact for ints / bools / strings and to '
-    'the declared width for floats; shape and element [i][j][k] order; declared type vs node type. A file its own '
-    'compiler rejects is a violation of that back-end for that parameter (attributed by re-exporting the '
-    'parameter alone). Non-trivial: an array of rank >= 2, or a non-default width, or a float not representable '
-    'in float32. Later rounds: non-ASCII strings; a selection made before the export on the same exporter object. '
-    'Distinct = distinct case JSON.'
+    '#define / const selections, renaming on/off, select by query, by tags or by both together, optionally after '
+    'another selection on the same exporter object); in two thirds of the cases ONE parsed environment serves all '
+    'back-ends of the case, in a rotated order, and the first back-end is exported once more at the end. Oracle = '
+    "the format's own reader: DIP re-parse; json / yaml / toml loaders; bash 'source' + 'declare -p'; generated "
+    'printer programs compiled with gcc (C11 _Generic, sizeof), g++ (std::is_same on decltype), gfortran (kind(), '
+    'shape()) and rustc (type_name_of_val); names by the documented mapping; values exact for ints / bools / '
+    'strings and to the declared width for floats; shape and element [i][j][k] order; declared type vs node type. '
+    'A file its own compiler rejects is a violation of that back-end for that parameter (attributed by '
+    're-exporting the parameter alone). Non-trivial: an array of rank >= 2, or a non-default width, or a float '
+    'not representable in float32. Later rounds: non-ASCII strings; a selection made before the export on the '
+    'same exporter object. Rounds 7-8: query and tags together; two tag selectors; parse() with the other units '
+    'option first; the preselection exported as well; top-level parameters named like group members (selection '
+    'and #define lists); the 132-column rule counts bytes. Distinct = distinct case JSON.'
 )
 ASSUMPTIONS = [
     "Bash encodes true/false as 0/-1 and Rust maps float128 to f64, both as documented",
